@@ -7,6 +7,7 @@ import WindVerif.Drv.Buffers
 import WindVerif.Drv.Generic
 import WindVerif.Drv.LineFile
 import WindVerif.Drv.Records
+import WindVerif.Drv.TmpPool
 open WindVerif.Drv
 
 def machines : List (String × Machine) := [
@@ -22,7 +23,8 @@ def machines : List (String × Machine) := [
   ("ring", ringMachine),
   ("generic", genericMachine),
   ("linefile", linefileMachine),
-  ("records", recordsMachine)
+  ("records", recordsMachine),
+  ("tmppool", tmppoolMachine)
 ]
 
 def main (args : List String) : IO UInt32 := do
